@@ -137,6 +137,7 @@ def impl_frame(payload):
 
 def impl_unframe(sshv, chunks, end):
     import io, contextlib
+    from ssh_audit.ssh_socket import SSH_Socket
     f = FakeSock(chunks, end)
     s = mk_socket(f)
     buf = io.StringIO()
@@ -146,6 +147,8 @@ def impl_unframe(sshv, chunks, end):
         rest = s.read(s.unread_len)
         res = ('err', p) if t < 0 else ('ok', t, p)
     except SystemExit:
+        res = ('sysexit',)
+    except SSH_Socket.InvalidPacketException:
         res = ('exit',)
     except (struct.error, TypeError, ValueError) as e:
         res = ('raise', exname(e))
@@ -158,6 +161,7 @@ def cpkt(r):
     if r[0] == 'ok': return '(PktOk %s %s)' % (cz(r[1]), cbytes(r[2]))
     if r[0] == 'err': return '(PktErr %s)' % cbytes(r[1])
     if r[0] == 'exit': return 'PktExit'
+    if r[0] == 'sysexit': return '(PktRaise RuntimeError)'
     return '(PktRaise %s)' % r[1]
 
 
